@@ -114,12 +114,27 @@ func rmExecOnce(t *testing.T, sh *rmShared, cfg rmCfg, ops []rmOp, names []strin
 	}
 	step, opName := 0, ""
 	active := true
+	var pendingViolations []func()
+	broken := false
 	fail := func(oracle, f string, a ...any) {
+		if strings.HasPrefix(oracle, "accounting") || strings.HasPrefix(oracle, "bounds") || strings.HasPrefix(oracle, "queue") || strings.HasPrefix(oracle, "notify") {
+			broken = true // the books are wrong: stop the script before the manager's own assertions panic in its goroutine
+		}
 		if !active {
 			return
 		}
-		sh.vs.add("C17.rm."+oracle, desc()+": step "+fmt.Sprint(step)+" "+opName+": "+fmt.Sprintf(f, a...), map[string]any{"config": cfg.name, "limit": cfg.L, "ops": seq}, len(seq))
+		key, d := "C17.rm."+oracle, desc()+": step "+fmt.Sprint(step)+" "+opName+": "+fmt.Sprintf(f, a...)
+		pendingViolations = append(pendingViolations, func() {
+			sh.vs.add(key, d, map[string]any{"config": cfg.name, "limit": cfg.L, "ops": seq}, len(seq))
+		})
 	}
+	defer func() {
+		if !res.flip { // a discarded execution (see rmExec) reports nothing: the same schedule is enumerated as Request(open);CloseCancel
+			for _, f := range pendingViolations {
+				f()
+			}
+		}
+	}()
 	synctest.Test(t, func(t *testing.T) {
 		m := resourcemanager.New[int](cfg.L)
 		notify := make([]chan int, cfg.nch)
@@ -304,7 +319,7 @@ func rmExecOnce(t *testing.T, sh *rmShared, cfg rmCfg, ops []rmOp, names []strin
 			// script releases everything it holds; the books must balance
 			active = true
 			step, opName = len(seq), "end-of-script"
-			if res.flip { // execution is discarded: just shut down
+			if res.flip || broken { // execution is discarded / books already wrong: just shut down
 				if !closed {
 					go m.Close()
 				}
@@ -313,7 +328,7 @@ func rmExecOnce(t *testing.T, sh *rmShared, cfg rmCfg, ops []rmOp, names []strin
 				return
 			}
 			if !closed {
-				for guard := 0; len(held) > 0 && guard < 64; guard++ {
+				for guard := 0; len(held) > 0 && guard < 64 && !broken; guard++ {
 					id := held[0]
 					held = held[1:]
 					recs[id].status = "released"
@@ -322,7 +337,7 @@ func rmExecOnce(t *testing.T, sh *rmShared, cfg rmCfg, ops []rmOp, names []strin
 					reconcile()
 				}
 				_, avail, objects, _ := m.VerifC17Snapshot()
-				if avail != cfg.L || objects != 0 {
+				if !broken && (avail != cfg.L || objects != 0) {
 					fail("balance.end", "after releasing every grant available=%d (limit %d) objects=%d", avail, cfg.L, objects)
 				}
 				var cdone atomic.Bool
@@ -464,30 +479,27 @@ func rmExecOnce(t *testing.T, sh *rmShared, cfg rmCfg, ops []rmOp, names []strin
 				}
 			case rmStats:
 				var s resourcemanager.Stats
+				// the manager is quiescent and Stats is the only stimulus: the answer describes the state BEFORE
+				// the step (answering may be followed by a new pick and a grant, which the answer cannot contain)
+				_, avail0, objects0, q0 := m.VerifC17Snapshot()
 				go func() { s = m.Stats(); c.done.Store(true) }()
 				synctest.Wait()
 				if !c.done.Load() {
 					fail("lockup.stats", "Stats did not return")
 					res.aborted = true
 				} else if !closed {
-					keys := map[string]bool{}
-					for _, r := range recs {
-						if r.status == "queued" {
-							keys[cfg.clients[r.client].key] = true
-						}
-					}
-					// cancelled-but-not-yet-collected requests still count as pending: accept both readings
-					_, avail, objects, q := m.VerifC17Snapshot()
 					pk := map[string]bool{}
-					for _, e := range q {
+					for _, e := range q0 {
 						pk[e.Key] = true
 					}
-					if s.AllocatedSize != cfg.L-avail || s.AllocatedObjects != objects || s.PendingKeys != len(pk) {
-						fail("stats", "Stats()=%+v but allocated=%d objects=%d pending keys=%d", s, cfg.L-avail, objects, len(pk))
+					if s.AllocatedSize != cfg.L-avail0 || s.AllocatedObjects != objects0 || s.PendingKeys != len(pk) {
+						fail("stats", "Stats()=%+v but allocated=%d objects=%d pending keys=%d", s, cfg.L-avail0, objects0, len(pk))
 					}
 					if s.AllocatedSize < 0 || s.AllocatedSize > cfg.L || s.AllocatedObjects < 0 {
 						fail("stats.bounds", "Stats()=%+v outside the limit %d", s, cfg.L)
 					}
+				} else if s != (resourcemanager.Stats{}) {
+					fail("stats.after-close", "Stats()=%+v after Close", s)
 				}
 			case rmClose:
 				if closed {
@@ -508,6 +520,10 @@ func rmExecOnce(t *testing.T, sh *rmShared, cfg rmCfg, ops []rmOp, names []strin
 				break
 			}
 			reconcile()
+			if broken {
+				res.aborted = true
+				break
+			}
 			res.keys = append(res.keys, stateKey())
 		}
 		if !res.aborted {
